@@ -1670,6 +1670,11 @@ class C09(Prop):
             "keyring LOCATIONS (~ forms incl. ~ + multi-byte character, empty, -, ., directories, trailing slashes, 255/256-byte components, "
             "paths of 4 KiB..70 KiB, non-UTF-8 bytes, control characters) via -k / --keyring= / KESTREL_KEYRING with HOME set / unset / empty / "
             "dangling / relative: exit 1 with an Error: line unless the location is a usable keyring (tools/props_kvs.py); "
+            "raw key bytes of every length 0..80 (thorough 0..300) and long ones given to PublicKey::try_from / PrivateKey::try_from and, when "
+            "accepted, USED in every operation taking a key (driver op c09key): a value at every step; locked-key texts of every decoded length "
+            "78..90 and text lengths 100..120 with 0..3 trailing '='; keyring sections whose Name / PublicKey / PrivateKey value is a single "
+            "punctuation character or a short string of them, in several spellings and positions, read by decrypt / encrypt processes: exit 0 or "
+            "exit 1 with an Error: line; "
             "non-trivial = all but the empty input")
     assumptions = ["termination of the real process is observed with a watchdog, not proved",
                    "the keyring surface is covered by C17; the argv surface by the parse correspondence appended here "
@@ -1821,9 +1826,75 @@ class C09(Prop):
         if len(ctx.samples) < 8 and parsed:
             ctx.samples.append({"op": "c09mem", "reference_peaks": refpeak, "example": meta[-1][4], "reply": parsed[-1]})
 
+    # ---- "an encoded key ... of whatever length": the validating constructors, and the constructed key IN USE
+    def r3_key_constructors(self, ctx):
+        """raw key bytes of every length 0..80 (thorough 0..300) and some long ones - random, all-zero, all-0xff, a genuine key
+        followed by filler (key + checksum, key + key ...), a genuine key cut short - handed to PublicKey::try_from and
+        PrivateKey::try_from (driver op `c09key`); when the constructor answers Ok the key is USED in every public operation that
+        takes one (clone, diffie_hellman, to_public, noise_encrypt / key_encrypt in each key position, noise_decrypt / key_decrypt),
+        each step under its own catch_unwind: the constructor and every use end in a value, never a panic."""
+        rng = ctx.rng
+        (s, spk), (r, rpk) = keypairs(ctx, 2)
+        auth = [Case("noise_enc", s=s, spk=spk, r=rpk, e=s, epk=spk, prologue=b"egk\x10", payload=ctx.rbytes(32)),
+                Case("key_enc", s=s, spk=spk, r=rpk, e=s, epk=spk, pk=ctx.rbytes(32), data=ctx.rbytes(40))]
+        vlib.run_impl(ctx.bin, auth)
+        if any(c.result["code"] != 0 for c in auth):
+            ctx.broken.append({"kind": "machinery", "what": "C09.r3_key_constructors: could not prepare an authentic message / file"})
+            return
+        NM, KF = [c.result["out"] for c in auth]
+        top = 300 if ctx.thorough() else 80
+        lens = list(range(0, top + 1)) + [127, 128, 129, 255, 256, 257, 1023, 1024, 4096, 65535, 65536] + [rng.randrange(top + 1, 5000) for _ in range(4)]
+        lines, meta = [], []
+
+        def put(kind, raw, what):
+            meta.append((kind, raw, what))
+            lines.append("%d c09key %s %s %s %s %s %s" % (len(lines), kind, vlib.hexs(raw), vlib.hexs(r), vlib.hexs(rpk), vlib.hexs(NM), vlib.hexs(KF)))
+        import hashlib
+        for n in lens:
+            for kind, good in (("pub", rpk), ("priv", r)):
+                fill = hashlib.sha256(good).digest()[:4] + good + ctx.rbytes(max(0, n - 68))
+                shapes = [("random", ctx.rbytes(n)), ("a genuine key cut short / followed by its checksum, itself and filler", (good + fill)[:n])]
+                if n <= 80 and (n % 4 == 0 or n in (31, 33) or ctx.thorough()):
+                    shapes += [("all zero", bytes(n)), ("all 0xff", b"\xff" * n)]
+                for what, raw in shapes:
+                    put(kind, raw, what)
+        res, _ = vlib.run_driver(ctx.bin, lines)
+        ctx.evaluations += len(lines)
+        nviol = 0
+        for i, (kind, raw, what) in enumerate(meta):
+            kv = dict(p.partition("=")[::2] for p in res.get(str(i), "x outcome=missing").split()[1:])
+            o = kv.get("outcome", "missing")
+            ctx.oracle_checks += 1
+            if len(raw):
+                ctx.distinct_nontrivial += 1
+            ctx.distribution["c09key:%s:%s" % (kind, o)] = ctx.distribution.get("c09key:%s:%s" % (kind, o), 0) + 1
+            ctor = "PublicKey::try_from" if kind == "pub" else "PrivateKey::try_from"
+            bad = None
+            if o not in ("ok", "ctor_err"):
+                msg = ""
+                try:
+                    msg = bytes.fromhex(kv.get("msg", "")).decode("utf-8", "replace")
+                except ValueError:
+                    pass
+                bad = ("%d raw bytes (%s) offered to %s, the key then used wherever the API takes one: an error value or a normal result at "
+                       "every step, never a panic/abort" % (len(raw), what, ctor),
+                       "%s at step '%s' (%s); constructed key length %s; steps before it: %s" % (o, kv.get("at", "?"), msg, kv.get("len", "?"), kv.get("uses", "-")))
+            elif len(raw) == 32 and what != "random" and raw in (r, rpk) and (o != "ok" or "clone:ok" not in kv.get("uses", "")):
+                ctx.broken.append({"kind": "machinery", "what": "C09.r3_key_constructors: the genuine 32-byte key was not accepted by %s: %s" % (ctor, kv)})
+            if bad:
+                nviol += 1
+                if nviol <= 6:
+                    ctx.violations.append({"input": {"op": "c09key", "kind": kind, "constructor": ctor, "raw": raw.hex() if len(raw) <= 512 else raw[:64].hex() + "..(%d bytes)" % len(raw),
+                                                     "raw_len": len(raw), "content": what, "line": lines[i] if len(lines[i]) < 4000 else None},
+                                           "expected": bad[0], "observed": bad[1], "finding_key": None})
+        ctx.distribution["c09key:violations"] = nviol
+        if len(ctx.samples) < 8 and meta:
+            ctx.samples.append({"op": "c09key", "cases": len(meta), "lengths": "0..%d and %s" % (top, lens[top + 1:])})
+
     def explore(self, ctx):
         super().explore(ctx)
         self.mem_while_rejecting(ctx)
+        self.r3_key_constructors(ctx)
         # the argv half ("whatever argument vector ... never a panic"): the real parser (clidrv driver op `parse`)
         # against Model/CliParse.v on exhaustive short and random long argument vectors (tools/props_cli.py)
         import props_cli
@@ -1839,6 +1910,13 @@ class C09(Prop):
         if payload.get("input", {}).get("op") == "parse" or payload.get("input", {}).get("kind") == "proc":
             import props_cli
             return props_cli.k_replay(ctx, payload)
+        if payload.get("input", {}).get("op") == "c09key":
+            d = payload["input"]
+            if not d.get("line"):
+                return {"holds": None, "note": "input too long to store: re-run the check with the recorded seed", "what": d["content"]}
+            res, _ = vlib.run_driver(ctx.bin, [d["line"]])
+            reply = list(res.values())[0] if res else ""
+            return {"holds": ("outcome=ok" in reply or "outcome=ctor_err" in reply), "implementation": reply[:400], "expected": payload.get("expected")}
         if payload.get("input", {}).get("op") == "c09mem":
             d = payload["input"]
             if ".." in d["data"]:
@@ -3125,7 +3203,11 @@ class C05(Prop):
             "primitives) for every combination of private key used / public key claimed / recipient addressed; decryption "
             "with wrong recipient private key, wrong recipient public key, both; all low-order and non-canonical-low-order "
             "X25519 points (14 encodings) as recipient for encryption, as ephemeral key and as claimed sender key (with the "
-            "all-zero secret an attacker would have to use) in forged files; header splices are in C03; non-trivial = every "
+            "all-zero secret an attacker would have to use) in forged files; a forger WITHOUT any sender private key (claimed sender = "
+            "each low-order encoding / an honest public key; second MixKey input = the es secret again, the claimed key, the ephemeral / "
+            "recipient public key, DH(ephemeral, claimed key), hashes, constants, random): always rejected; CLI look-alike contacts also "
+            "differ from the sender key in ONE NIBBLE at chosen byte positions incl. all values of both nibbles of the last byte; "
+            "header splices are in C03; non-trivial = every "
             "case except the two honest reference files; CLI (s4a_c05_key_bytes): encode_public_key / decode_public_key on raw keys with "
             "bit 255 set, non-canonical field elements, single bits, random; `kestrel decrypt` on library-made files whose embedded sender "
             "key is S and S | bit 255, keyrings listing the canonical key / the bit-255 key / both / neither: the entry named is the one "
@@ -3204,6 +3286,29 @@ class C05(Prop):
             out.append(Case("key_dec", r=r, rpk=rpk, data=Fe, oracle=reject, tags=["low-order-ephemeral"]))
             Fs = reference_key_file(ctx, e, epk, None, u, rpk, ctx.rbytes(32), P, ss_override=zeros)
             out.append(Case("key_dec", r=r, rpk=rpk, data=Fs, oracle=reject, tags=["low-order-sender"]))
+        # 5. a forger who holds NO sender private key at all: he chooses the ephemeral key (so he knows the es secret) and
+        # claims a sender key K - a low-order encoding (the ss exchange is refused) or an honest person's public key - and
+        # feeds the second MixKey whatever he can compute from public data and his own ephemeral key
+        es = drv(ctx, [Case("x25519", k=e, u=rpk)])[0]["out"]
+
+        def r3_guesses(K):
+            g = [("the es secret a second time", es), ("the claimed key itself", K), ("the ephemeral public key", epk),
+                 ("the recipient public key", rpk), ("all 0xff", b"\xff" * 32), ("SHA-256 of the es secret", drv(ctx, [Case("sha256", m=es)])[0]["out"]),
+                 ("random bytes", ctx.rbytes(32)), ("the es secret with one bit flipped", flip(es, rng.randrange(256)))]
+            x = drv(ctx, [Case("x25519", k=e, u=K)])[0]
+            if x["code"] == 0:
+                g.append(("DH(forger's ephemeral private key, claimed key)", x["out"]))
+            return g
+        for u in lows:
+            g = r3_guesses(u)
+            for what, secret in (g if ctx.thorough() else [g[0]] + rng.sample(g[1:], 1)):
+                Ff = reference_key_file(ctx, e, epk, None, u, rpk, ctx.rbytes(32), P, ss_override=secret)
+                out.append(Case("key_dec", r=r, rpk=rpk, data=Ff, oracle=reject, tags=["forger-without-private-key", "low-order-claim", "second-mixkey=" + what.replace(" ", "-")]))
+        for K in (spk, spk2) if ctx.thorough() else (spk,):
+            g = r3_guesses(K) + [("all zero", zeros)]
+            for what, secret in g:
+                Ff = reference_key_file(ctx, e, epk, None, K, rpk, ctx.rbytes(32), P, ss_override=secret)
+                out.append(Case("key_dec", r=r, rpk=rpk, data=Ff, oracle=reject, tags=["forger-without-private-key", "honest-claim", "second-mixkey=" + what.replace(" ", "-")]))
         return out
 
     # ---- CLI half: the NAME `kestrel decrypt` reports must belong to the key whose private key took part
@@ -3274,6 +3379,20 @@ def c05_lookalikes(ctx, M, full):
     for b in bits:                               # bit 255 is left alone: X25519 ignores it, it is arguably the same key
         add("one-bit-%d" % b, flip(M, b))
         add("one-bit-%d-same-checksum" % b, flip(M, b), keep_ck=True)
+    # one NIBBLE changed (valid checksum): at every byte position, in particular the last ones - 32 bytes are 42 2/3 base64
+    # characters, so the final nibbles share a character with the checksum
+    pos = list(range(32)) if full else sorted(set([0, 1, 14, 15, 16, 28, 29, 30, 31] + rng.sample(range(32), 3)))
+    for k in pos:
+        for hi_ in (False, True):
+            vs = list(range(1, 16)) if (full or k == 31) else rng.sample(range(1, 16), 2 if k >= 29 else 1)
+            if k == 31 and not full:
+                vs = sorted(set([1, 8, 15] + rng.sample(range(1, 16), 3)))
+            for v in vs:
+                if k == 31 and hi_ and v == 8:
+                    continue                             # only bit 255: left alone, see below
+                x = bytearray(M)
+                x[k] ^= (v << 4) if hi_ else v
+                add("nibble-%s-of-byte-%d-xor-%x" % ("high" if hi_ else "low", k, v), x)
     add("reversed", M[::-1])
     add("complement", bytes(x ^ 0xff for x in M))
     add("rotated", M[1:] + M[:1])
